@@ -22,8 +22,10 @@ VARIABLES
   vfiles,   \* vid -> set of table numbers             (versions of the current session)
   vlevels,  \* vid -> levels (sequence of sequences of table numbers) of the versions of the current session
   cur,      \* id of the current version (-1: none)
-  pinned    \* vids the reference loop holds as referenced and not yet released
-lvars == <<tvars, tabs, vfiles, vlevels, cur, pinned>>
+  pinned,   \* vids the reference loop holds as referenced and not yet released
+  snapref,  \* sequence number -> number of live snapshot references (db_snapshot.go list), from the s:acq / s:rel hooks
+  pubseq    \* upper bound of the published sequence number (logged before it is advanced)
+lvars == <<tvars, tabs, vfiles, vlevels, cur, pinned, snapref, pubseq>>
 
 Dom2(f) == DOMAIN f
 Ext2(f, x, v) == [y \in Dom2(f) \cup {x} |-> IF y = x THEN v ELSE f[y]]
@@ -61,12 +63,12 @@ TInstall ==
         /\ vfiles' = Ext2(vfiles, E.new, nums)
         /\ vlevels' = Ext2(vlevels, E.new, E.levels)
         /\ cur' = E.new
-  /\ UNCHANGED <<kvvars, pinned>>
+  /\ UNCHANGED <<kvvars, pinned, snapref, pubseq>>
 
 TVRef ==
   /\ Is("vref")
   /\ pinned' = IF E.kind = "ref" THEN pinned \cup {E.vid} ELSE pinned \ {E.vid}
-  /\ UNCHANGED <<kvvars, tabs, vfiles, vlevels, cur>>
+  /\ UNCHANGED <<kvvars, tabs, vfiles, vlevels, cur, snapref, pubseq>>
 
 Needed == (IF cur \in Dom2(vfiles) THEN vfiles[cur] ELSE {})
           \cup UNION {vfiles[v] : v \in pinned \cap Dom2(vfiles)}
@@ -76,12 +78,12 @@ TStRemove ==
   /\ Is("stremove")
   /\ E.num \notin Needed
   /\ tabs' = [n \in Dom2(tabs) \ {E.num} |-> tabs[n]]
-  /\ UNCHANGED <<kvvars, vfiles, vlevels, cur, pinned>>
+  /\ UNCHANGED <<kvvars, vfiles, vlevels, cur, pinned, snapref, pubseq>>
 
 TSessionEnd ==
   /\ Is("session-end")
-  /\ vfiles' = <<>> /\ vlevels' = <<>> /\ cur' = -1 /\ pinned' = {}
-  /\ UNCHANGED <<kvvars, tabs>>
+  /\ vfiles' = <<>> /\ vlevels' = <<>> /\ cur' = -1 /\ pinned' = {} /\ snapref' = <<>>
+  /\ UNCHANGED <<kvvars, tabs, pubseq>>
 
 \* C07: once readers are released and background work has settled, storage holds nothing
 \* but the live tables, the live journal(s), the live manifest
@@ -90,20 +92,38 @@ TSettled ==
   /\ SeqSet(E.tables) = SeqSet(E.live)
   /\ SeqSet(E.journals) \subseteq {E.jcur, E.jfrozen}
   /\ SeqSet(E.manifests) = {E.mcur}
-  /\ UNCHANGED <<kvvars, tabs, vfiles, vlevels, cur, pinned>>
+  /\ UNCHANGED <<kvvars, tabs, vfiles, vlevels, cur, pinned, snapref, pubseq>>
 
 TReclaimed ==
   /\ Is("reclaimed")
   /\ E.bytes <= E.bound
-  /\ UNCHANGED <<kvvars, tabs, vfiles, vlevels, cur, pinned>>
+  /\ UNCHANGED <<kvvars, tabs, vfiles, vlevels, cur, pinned, snapref, pubseq>>
 
 \* A table compaction about to run (session_compaction.go: pickCompaction / getCompactionRange / expand), picked on
 \* version E.vid: its inputs must be closed - at level 0 every table overlapping the inputs' key range is an input
 \* (otherwise an older entry would stay above a newer one), and every table of the next level overlapping that
 \* range is an input (otherwise the output would overlap it).  These are the preconditions of the C06 laws.
 Overlaps(t, lo, hi) == ~(KMax(t) < lo \/ KMin(t) > hi)
+\* db_snapshot.go: the list of live snapshot sequence numbers, and the published sequence number
+LiveSnaps == {q \in Dom2(snapref) : snapref[q] > 0}
+TEng ==
+  /\ Is("eng")
+  /\ snapref' = IF E.h = "s:acq" THEN Ext2(snapref, E.seq, (IF E.seq \in Dom2(snapref) THEN snapref[E.seq] ELSE 0) + 1)
+                ELSE IF E.h = "s:rel" /\ E.seq \in Dom2(snapref)
+                     THEN (IF snapref[E.seq] <= 1 THEN [q \in Dom2(snapref) \ {E.seq} |-> snapref[q]]
+                           ELSE [snapref EXCEPT ![E.seq] = @ - 1])
+                ELSE snapref
+  /\ pubseq' = IF E.h \in {"w:publish-begin", "tx:publish-begin"} /\ E.seq > pubseq THEN E.seq ELSE pubseq
+  /\ UNCHANGED <<kvvars, tabs, vfiles, vlevels, cur, pinned>>
+
+\* C03's mechanism checked where it acts: a compaction must not treat as obsolete anything a live snapshot can
+\* still see, i.e. the minSeq it runs with is never above the oldest live snapshot (nor above the published sequence).
+\* (no bound from `pubseq`: discarding a transaction and journal recovery advance the sequence number without a publication)
+MinSeqOK(e) == \A q \in LiveSnaps : e.minseq <= q
+
 TCompaction ==
   /\ Is("compaction")
+  /\ (E.trivial = 0 => MinSeqOK(E))
   /\ IF E.vid \in Dom2(vlevels) /\ E.level + 2 <= Len(vlevels[E.vid]) /\ Len(E.in0) > 0
         /\ (SeqSet(E.in0) \cup SeqSet(E.in1)) \subseteq Dom2(tabs)
      THEN LET L0 == SeqSet(vlevels[E.vid][E.level + 1])
@@ -117,18 +137,18 @@ TCompaction ==
              /\ E.trivial = 0 => \A n \in (L1 \ I1) \cap Dom2(tabs) : ~Overlaps(tabs[n], lo, hi)
              /\ E.trivial = 1 => \A n \in L1 \cap Dom2(tabs) : ~Overlaps(tabs[n], lo, hi)
      ELSE TRUE
-  /\ UNCHANGED <<kvvars, tabs, vfiles, vlevels, cur, pinned>>
+  /\ UNCHANGED <<kvvars, tabs, vfiles, vlevels, cur, pinned, snapref, pubseq>>
 
-LReset == Reset /\ tabs' = <<>> /\ vfiles' = <<>> /\ vlevels' = <<>> /\ cur' = -1 /\ pinned' = {}
+LReset == Reset /\ tabs' = <<>> /\ vfiles' = <<>> /\ vlevels' = <<>> /\ cur' = -1 /\ pinned' = {} /\ snapref' = <<>> /\ pubseq' = 0
 
-LSMInit == TraceInit /\ tabs = <<>> /\ vfiles = <<>> /\ vlevels = <<>> /\ cur = -1 /\ pinned = {}
+LSMInit == TraceInit /\ tabs = <<>> /\ vfiles = <<>> /\ vlevels = <<>> /\ cur = -1 /\ pinned = {} /\ snapref = <<>> /\ pubseq = 0
 
 LSMNext ==
   /\ Advance
   /\ \/ LReset
      \/ TInstall \/ TVRef \/ TStRemove \/ TSessionEnd \/ TSettled \/ TReclaimed
-     \/ TCompaction
-     \/ (~Is("reset") /\ KVStep /\ UNCHANGED <<tabs, vfiles, vlevels, cur, pinned>>)
+     \/ TCompaction \/ TEng
+     \/ (~Is("reset") /\ KVStep /\ UNCHANGED <<tabs, vfiles, vlevels, cur, pinned, snapref, pubseq>>)
   /\ Mark
 
 LSMSpec == LSMInit /\ [][LSMNext]_lvars
